@@ -16,7 +16,7 @@ RULE = ('Hypothesis-generated episodes on the cluster simulator (2-4 real instan
 ASSUMPTIONS = ['payload schemas are those of real peers (no malformed JSON)',
                'handlers are atomic (one Supervisor main loop); proxy threads are FIFO queues',
                'XML-RPC parameters are XML-RPC marshallable values']
-SHARDS = {'quick': 8, 'thorough': 16}
+SHARDS = {'quick': 16, 'thorough': 16}
 
 
 class P(Profile):
@@ -33,6 +33,20 @@ class P(Profile):
     steps_max = 50
     warmups = (0, 30, 45)
     starting = tuple(STARTING)
+
+
+class PStorm(P):
+    """XML-RPC storms: mostly user requests with valid and invalid parameter values, few faults."""
+    user_ops = ('rpc_fuzz', 'rpc_fuzz', 'rpc_fuzz', 'rpc')
+    fault_ops = ('crash', 'restart')
+    proc_ops = ('direct_start', 'group_ops')
+    op_rate = 0.8
+    ops_per_step_max = 4
+    steps_max = 40
+    warmups = (0, 30, 45)
+    hold_rate = 0.05
+    order_rate = 0.1
+    inject_rate = 0.05
 
 
 def make_monitors(episode):
@@ -54,8 +68,10 @@ def classify(runner, monitors, episode):
     return nontrivial, classes
 
 
-CHECK = EpisodeCheck(PROPERTY_ID, episode_st(P), make_monitors, evaluate, classify, quick=320, thorough=12000,
-                     suffix_kwargs={'ticks': 10, 'boot_dead': True})
+from hypothesis import strategies as _st
+CHECK = EpisodeCheck(PROPERTY_ID, _st.one_of(episode_st(P), episode_st(P), episode_st(PStorm)), make_monitors, evaluate,
+                     classify, quick=1100, thorough=16000,
+                     suffix_kwargs={'ticks': 10, 'boot_dead': True}, hang_is_finding=True)
 
 
 def run_shard(ctx):
